@@ -1,8 +1,9 @@
 #!/bin/bash
 # tools/wave_collect.sh <N> <suffix> : collect the seeds of wave N (worktrees /tmp/seed<N>_Cxx) into seeded/Cxx<suffix>, remove the
 # worktrees, and run the COMMITTED machinery (git HEAD of /verif, uncommitted edits stashed away in a separate worktree) against each
-# seed applied to the dev worktree /tmp/dev_wt  ->  /tmp/wave<N>_first.log
-N=$1; SUF=$2
+# seed applied to the dev worktree $DEV_WT (default /tmp/dev_wt)  ->  /tmp/wave<N>_first.log
+N=$1; SUF=$2; DEV=${DEV_WT:-/tmp/dev_wt}
+[ -d $DEV ] || git -C /repo worktree add -q --detach $DEV HEAD
 cd /verif
 for i in 01 02 03 04 05 06 07 08 09 10 11 12 13 14 15 16 17 18 19; do
   mkdir -p seeded/C${i}${SUF}; cp -r /tmp/seed${N}_C$i/SEED/. seeded/C${i}${SUF}/ 2>/dev/null
@@ -11,12 +12,12 @@ for i in 01 02 03 04 05 06 07 08 09 10 11 12 13 14 15 16 17 18 19; do
 done
 git -C /repo worktree prune; rm -f /tmp/prompt${N}_C*.txt
 git stash -q; git worktree add -q --detach /tmp/verif_old HEAD; git stash pop -q
-(cd /tmp/dev_wt && git checkout -q -- . && git checkout -q --detach $(git -C /repo rev-parse HEAD))
+(cd $DEV && git checkout -q -- . && git checkout -q --detach $(git -C /repo rev-parse HEAD))
 for i in 01 02 03 04 05 06 07 08 09 10 11 12 13 14 15 16 17 18 19; do
   id=C$i
-  (cd /tmp/dev_wt && git apply /verif/seeded/${id}${SUF}/patch.diff) || { echo "${id}${SUF} patch failed"; continue; }
-  out=$(FORMAK_REPO=/tmp/dev_wt VERIF_EVIDENCE_DIR=/tmp/ev_tmp /tmp/verif_old/check $id 2>&1)
-  echo "${id}${SUF} committed machinery $id rc=$? :: $(echo "$out" | grep -m1 '  key=' | cut -c1-170)"
-  (cd /tmp/dev_wt && git checkout -q -- .)
+  (cd $DEV && git apply /verif/seeded/${id}${SUF}/patch.diff) || { echo "${id}${SUF} patch failed"; continue; }
+  out=$(FORMAK_REPO=$DEV VERIF_EVIDENCE_DIR=/tmp/ev_tmp python3 /verif/tools/run_with_timeout.py ${WAVE_TIMEOUT:-900} /tmp/verif_old/check $id 2>&1)
+  echo "${id}${SUF} committed machinery $id rc=$? :: $(echo "$out" | grep -m1 -E '  key=|TIMEOUT' | cut -c1-170)"
+  (cd $DEV && git checkout -q -- .)
 done 2>&1 | tee /tmp/wave${N}_first.log
 git worktree remove --force /tmp/verif_old
